@@ -87,8 +87,23 @@ pub mod seqlem {
             assert(s.remove(i) =~= s.drop_last().remove(i).push(s.last()));
         }
     }
+    pub broadcast proof fn lemma_push_contains<A>(s: Seq<A>, a: A, v: A)
+        ensures #[trigger] s.push(a).contains(v) <==> (s.contains(v) || a == v),
+    {
+        if s.contains(v) {
+            let i = choose|i: int| 0 <= i < s.len() && s[i] == v;
+            assert(s.push(a)[i] == v);
+        }
+        if a == v {
+            assert(s.push(a)[s.len() as int] == v);
+        }
+        if s.push(a).contains(v) {
+            let i = choose|i: int| 0 <= i < s.push(a).len() && s.push(a)[i] == v;
+            if i < s.len() { assert(s[i] == v); }
+        }
+    }
 }
-broadcast use {seqlem::lemma_filter_ext, seqlem::lemma_filter_all, seqlem::lemma_filter_remove_one};
+broadcast use {seqlem::lemma_filter_ext, seqlem::lemma_filter_all, seqlem::lemma_filter_remove_one, seqlem::lemma_push_contains};
 
 // ---- abstract view: client id -> (user, session, list of memberships) ----
 pub open spec fn same_membership(g: ConsumerGroup, stream_id: u32, topic_id: u32, group_id: u32) -> bool {
